@@ -3,10 +3,13 @@
 import json, os
 VERIF = os.path.dirname(os.path.dirname(os.path.abspath(__file__)))
 
+HIST_NOTE = ("History independence: results computed once are recomputed for a sample in one process and in another order (Check.again), and the checks "
+             "that a memo could confuse interleave what it would be keyed on (two references of one name, delimiter sets differing in one role, the same "
+             "structure name in all versions, TOLERANT before STRICT, long-lived threads across a change of the defaults). ")
 NOTE_COMMON = ("Trusted: Lean 4.33 kernel; axioms ⊆ {propext, Classical.choice, Quot.sound} (audited with #print axioms on every run, "
                "no sorry/axiom/native_decide); the translator tools/gen_tables.py; the hand model of the Python primitives and of hl7apy's "
                "algorithms, tied to /repo only by this run's correspondence check (differential; reach bounded by its generators); "
-               "CPython/re/datetime/decimal are modelled, not verified. ")
+               "CPython/re/datetime/decimal are modelled, not verified. " + HIST_NOTE)
 
 CLAIMS = {
     'C06': dict(
